@@ -569,8 +569,12 @@ def rule_handed_over_not_freed(ctx):
                 cleared = False
                 for e, nd in seq[i + 1:]:
                     for x in walk(e, True):
-                        if x[0] == "asg" and x[1] == "=" and kind(strip(x[2])) == "var" and strip(x[2])[1] == v and is_null(x[3]):
-                            cleared = True
+                        if x[0] == "asg" and x[1] == "=" and kind(strip(x[2])) == "var" and strip(x[2])[1] == v:
+                            r_ = strip(x[3])
+                            while kind(r_) == "asg":          # p = q = NULL
+                                r_ = strip(r_[3])
+                            if is_null(r_):
+                                cleared = True
                 # a failing exit can follow the hand-over only if something after it in the iteration (or the next iteration
                 # before the pointer is re-assigned) can fail; a loop whose hand-over is its last fallible step and whose next
                 # iteration starts by assigning the pointer is fine too
